@@ -286,6 +286,13 @@ carquet_status_t carquet_read_data_page_v1(
 
     /* Decode repetition levels if needed */
     if (reader->max_rep_level > 0 && rep_levels) {
+        /* Only the RLE/bit-packed hybrid (4-byte length + runs) is implemented; the deprecated
+         * BIT_PACKED level layout has no length prefix and would be misread */
+        if (header->repetition_level_encoding != CARQUET_ENCODING_RLE) {
+            CARQUET_SET_ERROR(error, CARQUET_ERROR_INVALID_ENCODING,
+                "Unsupported repetition level encoding: %d", header->repetition_level_encoding);
+            return CARQUET_ERROR_INVALID_ENCODING;
+        }
         /* Read 4-byte length prefix */
         if (remaining < 4) {
             CARQUET_SET_ERROR(error, CARQUET_ERROR_DECODE, "Truncated rep levels");
@@ -315,6 +322,11 @@ carquet_status_t carquet_read_data_page_v1(
 
     /* Decode definition levels if needed */
     if (reader->max_def_level > 0 && def_levels) {
+        if (header->definition_level_encoding != CARQUET_ENCODING_RLE) {
+            CARQUET_SET_ERROR(error, CARQUET_ERROR_INVALID_ENCODING,
+                "Unsupported definition level encoding: %d", header->definition_level_encoding);
+            return CARQUET_ERROR_INVALID_ENCODING;
+        }
         /* Read 4-byte length prefix */
         if (remaining < 4) {
             CARQUET_SET_ERROR(error, CARQUET_ERROR_DECODE, "Truncated def levels");
